@@ -296,7 +296,8 @@ Proof.
     { intros st2 s H1 H2 H3 H4 (fl & lr & [->| ->]); unfold Ps, Qs; cbn [fst snd field_refs field_importable];
         (split; [exact H1|]; split; [exact H2|]; split; [exact H3|]; split; [reflexivity|];
          intros k Hk; destruct Hk as [<-|[]]; exact H4). }
-    destruct (lookup st (msg_key m)) as [en|] eqn:El; cbn [obind].
+    destruct (lookup st (msg_key m)) as [en|] eqn:El; [destruct (is_enum_entry en)|]; cbn [obind].
+    + exact I.
     + apply Hres; try assumption; try apply ext_refl; try apply noplace_refl; [eapply has_key_lookup; eauto|].
       destruct (is_oneof_wrapper m); [exists false; eexists; right; reflexivity|eexists; exists None; left; reflexivity].
     + assert (Hk : has_key st (msg_key m) = false) by (unfold has_key; rewrite El; reflexivity).
